@@ -230,8 +230,15 @@ func (g *Generator) generateFlattenFieldMarshal(gf *protogen.GeneratedFile, info
 	gf.P("// Flatten field: ", field.Desc.Name())
 	gf.P("if x.", goName, " != nil {")
 	gf.P(`delete(raw, "`, jsonName, `")`)
-	gf.P("// Use json.Marshal to invoke child's MarshalJSON (annotation composability)")
-	gf.P("childData, childErr := json.Marshal(x.", goName, ")")
+	gf.P("// Encode the child with its own MarshalJSON if it has one (annotation composability),")
+	gf.P("// otherwise with protojson: encoding/json would use the Go struct tags, not the proto3 JSON names")
+	gf.P("var childData []byte")
+	gf.P("var childErr error")
+	gf.P("if m, ok := any(x.", goName, ").(json.Marshaler); ok {")
+	gf.P("childData, childErr = m.MarshalJSON()")
+	gf.P("} else {")
+	gf.P("childData, childErr = protojson.Marshal(x.", goName, ")")
+	gf.P("}")
 	gf.P("if childErr != nil {")
 	gf.P("return nil, childErr")
 	gf.P("}")
@@ -332,8 +339,14 @@ func (g *Generator) generateFlattenFieldUnmarshal(gf *protogen.GeneratedFile, in
 	gf.P("return childErr")
 	gf.P("}")
 	gf.P("flat", goName, " = &", childTypeName, "{}")
-	gf.P("// Use json.Unmarshal to invoke child's UnmarshalJSON (annotation composability)")
-	gf.P("if childErr = json.Unmarshal(childData, flat", goName, "); childErr != nil {")
+	gf.P("// Decode the child with its own UnmarshalJSON if it has one (annotation composability),")
+	gf.P("// otherwise with protojson (proto3 JSON names)")
+	gf.P("if u, ok := any(flat", goName, ").(json.Unmarshaler); ok {")
+	gf.P("childErr = u.UnmarshalJSON(childData)")
+	gf.P("} else {")
+	gf.P("childErr = protojson.Unmarshal(childData, flat", goName, ")")
+	gf.P("}")
+	gf.P("if childErr != nil {")
 	gf.P("return childErr")
 	gf.P("}")
 	gf.P("}")
